@@ -320,3 +320,90 @@ def run_check(prop, tier, seed, fams, technique_note=""):
                    ([technique_note] if technique_note else []),
                    time.time() - t0, n_unknown)
     return rc
+
+
+def simple_campaign(name, tier, seed, mc_module, mc_cfg_text, harness_args, trace_module, flatten,
+                    detail=None, relevant=None, extra_cases=None, mc_workers=4, tv_workers=4):
+    """The common pipeline: TLC generator -> cases -> harness -> trace -> TLC judge -> records.
+    harness_args: list; the tokens CASES / TRACE / SEED are substituted. flatten(verdict)->record."""
+    with Stage(name, tier, seed) as st:
+        if st.fresh():
+            return st.load()
+        t0 = time.time()
+        build_harness()
+        cfg = st.path(mc_module + ".cfg")
+        open(cfg, "w").write(mc_cfg_text)
+        mc_out = st.path("mc.out")
+        mc = run_tlc(mc_module, cfg, mc_out, workers=mc_workers, timeout=6000)
+        if not mc["ok"]:
+            raise ToolError("%s did not complete cleanly: %s" % (mc_module, mc["error"]))
+        cases = st.path("cases.ndjson")
+        n = extract_cases(mc_out, cases)
+        os.remove(mc_out)
+        if extra_cases:
+            with open(cases, "a") as f:
+                for i, c in enumerate(extra_cases):
+                    c = dict(c, id=n + 1 + i)
+                    f.write(json.dumps(c) + "\n")
+        trace = st.path("trace.ndjson")
+        args = [BIN] + [cases if a == "CASES" else trace if a == "TRACE" else str(seed) if a == "SEED" else a
+                        for a in harness_args]
+        rc, out, _ = sh(args, timeout=6000)
+        if rc != 0:
+            raise ToolError("harness failed: " + out[-2000:])
+        hstat = json.loads(out.strip().splitlines()[-1])
+        tv_out = st.path("tv.out")
+        tv = run_tlc(trace_module, os.path.join(SPEC, trace_module + ".cfg"), tv_out, workers=tv_workers,
+                     env={"TRACE": trace}, timeout=6000)
+        if not tv["ok"]:
+            raise ToolError("%s did not complete: %s" % (trace_module, tv["error"]))
+        seen, recs = set(), []
+        for v in tagged(tv_out, "VERDICT"):
+            r = flatten(v)
+            k = json.dumps(r, sort_keys=True)
+            if k not in seen:
+                seen.add(k)
+                recs.append(r)
+        drift = sum(1 for _ in tagged(tv_out, "SPEC-DRIFT"))
+        os.remove(tv_out)
+        samples = []
+        with open(cases) as f:
+            for i, l in enumerate(f):
+                if i in (1, n // 2, max(n - 2, 0)):
+                    samples.append(json.loads(l))
+        res = {"records": recs, "states": mc["distinct"] + tv["distinct"], "transitions": mc["generated"] + tv["generated"],
+               "traces": hstat.get("cases", n), "samples": samples, "relevant": relevant(cases) if relevant else {},
+               "detail": dict(detail or {}, generated_cases=n, harness=hstat, spec_drift=drift),
+               "wall_s": round(time.time() - t0, 1)}
+        st.store(res)
+        return res
+
+
+def simple_replay(name, prop, path, harness_args, trace_module, flatten, props_of):
+    rp = json.load(open(path))
+    build_harness()
+    d = os.path.join(WORK, "replay-run")
+    os.makedirs(d, exist_ok=True)
+    cases = os.path.join(d, name + "-cases.ndjson")
+    c = dict(rp["case"] or {}, id=1)
+    open(cases, "w").write(json.dumps(c) + "\n")
+    trace = os.path.join(d, name + "-trace.ndjson")
+    args = [BIN] + [cases if a == "CASES" else trace if a == "TRACE" else "1" if a == "SEED" else a for a in harness_args]
+    sh(args, timeout=600)
+    tv_out = os.path.join(d, name + "-tv.out")
+    tv = run_tlc(trace_module, os.path.join(SPEC, trace_module + ".cfg"), tv_out, workers=1, env={"TRACE": trace}, timeout=600)
+    print("CASE", open(trace).read()[:3000])
+    recs = [dict(flatten(v), fam=name) for v in tagged(tv_out, "VERDICT")]
+    recs = [r for r in recs if prop in props_of(r)]
+    rc, n, known = finish(prop, recs, load_findings(), lambda r: path)
+    return rc
+
+
+def stage_case(name, tier, tr):
+    p = os.path.join(WORK, "stage", name + "-" + tier, "cases.ndjson")
+    with open(p) as f:
+        for l in f:
+            c = json.loads(l)
+            if c.get("id") == tr:
+                return c
+    return None
